@@ -885,7 +885,7 @@ fn gen_read(rng: &mut Rng) -> (String, String) {
     let _ = file_rows;
     let nt = sel != "-" || np > 0 || off != "-" || lim != "-";
     let tags = format!(
-        "op:read:{} groups:{} sel:{}:{} pol:{} preds:{} off:{} lim:{} idx:{} bs:{} proj:{} {}",
+        "op:read:{} groups:{} sel:{}:{} pol:{} preds:{} off:{} lim:{} idx:{} bs:{} proj:{} {}{}",
         mode,
         gtag,
         stag,
@@ -897,6 +897,7 @@ fn gen_read(rng: &mut Rng) -> (String, String) {
         idx,
         if bs >= total.max(1) { "ge-total" } else { "lt-total" },
         proj.len(),
+        if (off != "-" || lim != "-") && groups.len() > 1 { format!("budget:{}-multi-rg ", mode) } else { String::new() },
         if nt { "nt" } else { "" }
     );
     (line, tags)
